@@ -5,6 +5,20 @@ Require Import Translated.
 
 Definition is_ok {A} (o : outcome A) : bool := match o with Ok _ => true | _ => false end.
 
+(* finite case analysis on every scrutinee: robust against reordered or regrouped guards in the source *)
+Ltac cases :=
+  rewrite ?gtb_ltb, ?geb_leb;
+  repeat (match goal with
+          | |- context [if negb ?c then _ else _] => destruct c eqn:?
+          | |- context [if ?a || ?b then _ else _] => destruct a eqn:?; destruct b eqn:?
+          | |- context [match ?x with _ => _ end] =>
+              lazymatch x with
+              | context [match _ with _ => _ end] => fail
+              | _ => destruct x eqn:?
+              end
+          end; cbn [negb andb orb is_ok] in *);
+  try reflexivity; try discriminate; try congruence; try lia.
+
 (* ValidateFeeder: validator known and bonded, and the sender is the operator or the stored delegate
    (GetFeederDelegation answers the operator's own account when nothing is stored) *)
 (* TIE: ValidateFeeder_guards ValidateFeeder_needs_delegation ValidateFeeder_delegation_mismatch *)
@@ -35,11 +49,7 @@ Theorem Prevote_tie o chains h feeder val commit rid :
   | None => Prevote_accepted true 0 rid h 0 false
   end.
 Proof.
-  unfold ohandle, Prevote_accepted.
-  destruct (validate_feeder o feeder val); cbn [negb andb]; [|reflexivity].
-  destruct (o_round o) as [r|]; [|reflexivity]. cbn [orb].
-  destruct (rd_id r =? rid); cbn [negb]; [|reflexivity].
-  rewrite gtb_ltb. destruct (rd_prevote_end r <? h); reflexivity.
+  unfold ohandle, Prevote_accepted. cases.
 Qed.
 
 (* Vote: commitments are compared as the committed byte strings (SHA-256 is taken to be collision free) *)
@@ -56,17 +66,7 @@ Theorem Vote_tie o chains h feeder val vd salt rid :
   | None => Vote_accepted true 0 rid h 0 true false true false [] []
   end.
 Proof.
-  unfold ohandle, Vote_accepted.
-  destruct (validate_feeder o feeder val); cbn [negb andb]; [|reflexivity].
-  destruct (o_round o) as [r|]; [|reflexivity]. cbn [orb].
-  destruct (rd_id r =? rid) eqn:E1; cbn [negb].
-  2:{ destruct (zlookup val (o_prevotes o)); reflexivity. }
-  rewrite gtb_ltb. destruct (rd_vote_end r <? h) eqn:E2.
-  { destruct (zlookup val (o_prevotes o)); reflexivity. }
-  destruct (validate_vote_data vd chains); cbn [negb].
-  2:{ destruct (zlookup val (o_prevotes o)); reflexivity. }
-  destruct (zlookup val (o_prevotes o)) as [c|]; [|reflexivity].
-  destruct (bytes_eqb c (preimage salt vd)); reflexivity.
+  unfold ohandle, Vote_accepted. cases.
 Qed.
 
 (* TIE: Consent_accepted *)
@@ -75,7 +75,5 @@ Theorem Consent_tie o chains h val feeder :
   Consent_accepted (match find_val (o_vals o) val with Some _ => true | None => false end)
                    (match find_val (o_vals o) val with Some v => v_bonded v | None => false end) false.
 Proof.
-  unfold ohandle, Consent_accepted.
-  destruct (find_val (o_vals o) val) as [v|]; cbn [negb orb]; [|reflexivity].
-  destruct (v_bonded v); reflexivity.
+  unfold ohandle, Consent_accepted. cases.
 Qed.
